@@ -6,7 +6,10 @@ device-side execution log, the timeout_ops the calls leave behind).  Device line
 decide whether a call times out.  A silent device is a scripted wait too (HORIZON): an armed
 timeout_ops ends it through the real decorators, which is what the error-path family
 (gen_error_scenario) relies on; failed operations are observed as exception type + message class +
-explicit cause chain (error_class), next to the bytes written and the state afterwards."""
+explicit cause chain (error_class), next to the bytes written and the state afterwards.
+Round 7: streaming answers x expected_outputs classes for send_and_read / send_input_and_read (gen_and_read_scenario),
+escape sequences x cuts inside them (EscChunker, gen_ansi_scenario), and two-object histories with an in-place edit of a
+default privilege level, judged against the isolation expectation as well (_run_sync_one, _isolation)."""
 import asyncio
 import atexit
 import contextlib
@@ -203,7 +206,77 @@ class LatencyMixin:
 HORIZON = 1.0e6
 
 
-class ScriptedTransport(LatencyMixin, OnceFaultMixin, simdevice.ScriptedTransport):
+# ------------------------------------------------------------------------------------------------
+# chunking policy ["esccut", k, after]: the transport cuts every escape sequence of the device's stream k bytes behind its
+# ESC (k = -1: in front of its final byte; a k beyond the sequence is clipped to that), and the read that follows carries
+#   after = "rest"  : exactly the rest of the cut sequence (no ESC in that chunk),
+#           "plain" : the rest and the text behind it up to (not including) the next ESC (no ESC in that chunk either),
+#           "all"   : everything the device has printed so far (further escape sequences included).
+# Text without an ESC is delivered whole.  Where a sequence ends is decided here by the ECMA-48 grammar (CSI: parameter
+# bytes 0x30-0x3f, intermediate bytes 0x20-0x2f, one final byte; OSC: up to BEL or ST; anything else: ESC + one byte),
+# independently of scrapli's patterns.
+# ------------------------------------------------------------------------------------------------
+def esc_seq_len(data, i):
+    n = len(data)
+    if i + 1 >= n:
+        return 1
+    c = data[i + 1]
+    if c == 0x5b:
+        j = i + 2
+        while j < n and 0x30 <= data[j] <= 0x3f:
+            j += 1
+        while j < n and 0x20 <= data[j] <= 0x2f:
+            j += 1
+        return min(j + 1, n) - i
+    if c == 0x5d:
+        j = i + 2
+        while j < n and data[j] != 7 and not (data[j] == 0x1b and j + 1 < n and data[j + 1] == 0x5c):
+            j += 1
+        if j < n and data[j] == 0x1b:
+            j += 1
+        return min(j + 1, n) - i
+    return 2
+
+
+class EscChunker:
+    def __init__(self, device, policy):
+        self.device = device
+        self.policy = tuple(policy)
+        self.k = int(policy[1])
+        self.after = policy[2] if len(policy) > 2 else "rest"
+        self.mid = 0                      # bytes of a cut sequence that are still to be delivered
+        self.cuts = []                    # (sequence, position of the cut) for the coverage record
+
+    def take(self, delivered, pending):
+        data = bytes(self.device.out[delivered:delivered + pending])
+        if self.mid:
+            rest, self.mid = min(self.mid, len(data)), 0
+            if self.after == "rest":
+                return rest
+            if self.after == "plain":
+                j = data.find(b"\x1b", rest)
+                return len(data) if j < 0 else max(j, 1)
+            return len(data)
+        i = data.find(b"\x1b")
+        if i < 0:
+            return len(data)
+        n = esc_seq_len(data, i)
+        if n < 2:
+            return i + n
+        k = self.k if 0 < self.k < n else n - 1
+        self.mid = n - k
+        self.cuts.append((data[i:i + n], k))
+        return i + k
+
+
+class EscCutMixin:
+    def _init(self, device, policy, fault=None):
+        super()._init(device, policy, fault)
+        if tuple(policy)[:1] == ("esccut",):
+            self.chunker = EscChunker(device, policy)
+
+
+class ScriptedTransport(EscCutMixin, LatencyMixin, OnceFaultMixin, simdevice.ScriptedTransport):
     def read(self):
         m = self._due()
         while m is not None:
@@ -217,7 +290,7 @@ class ScriptedTransport(LatencyMixin, OnceFaultMixin, simdevice.ScriptedTranspor
             raise
 
 
-class AsyncScriptedTransport(LatencyMixin, OnceFaultMixin, simdevice.AsyncScriptedTransport):
+class AsyncScriptedTransport(EscCutMixin, LatencyMixin, OnceFaultMixin, simdevice.AsyncScriptedTransport):
     async def read(self):
         m = self._due()
         while m is not None:
@@ -453,6 +526,10 @@ def _call_args(drv, op):
         return drv.register_configuration_session, [a[0]], {}
     if name == "channel_send_input":
         return drv.channel.send_input, [a[0]], dict(a[1]) if len(a) > 1 else {}
+    if name == "channel_send_input_and_read":
+        return drv.channel.send_input_and_read, [a[0]], dict(a[1]) if len(a) > 1 else {}
+    if name == "update_privilege_levels":
+        return drv.update_privilege_levels, [], {}
     if name == "channel_send_inputs_interact":
         return drv.channel.send_inputs_interact, [[tuple(x) for x in a[0]]], dict(a[1]) if len(a) > 1 else {}
     raise ValueError("unknown op %r" % (name,))
@@ -500,30 +577,103 @@ def _finish(dev, drv, obs, errs=()):
     }
 
 
-def run_sync(sc):
-    with scripted_timers():
-        dev, drv = build(sc, "sync")
-        obs, errs = [], []
-        for op in sc["ops"]:
-            if not _has(drv, op):
-                obs.append(["skip", op[0]])
-                continue
-            fn, a, kw = _call_args(drv, op)
-            try:
-                obs.append(["ok", canon(fn(*a, **kw))])
-            except Starved:
-                obs.append(["exc", "Starved"])
-                break
-            except Exception as e:  # noqa
-                obs.append(["exc", type(e).__name__])
-                errs.append([len(obs) - 1] + error_class(e))
-        return _finish(dev, drv, obs, errs)
+# ------------------------------------------------------------------------------------------------
+# two-object histories (scenario key "first"): a FIRST driver object of the same kind is constructed (its own device),
+# optionally used, one of its privilege levels is edited IN PLACE (drv.privilege_levels[level].<field> = value, or
+# .not_contains.append(value)), optionally update_privilege_levels() / more operations; then the scenario's own object (the
+# SECOND one) is constructed and runs sc["ops"].  Observed on top of the usual fields: the second object's privilege levels
+# right after its construction ("levels"), what the first object did ("first"), and "isolation": the ways in which the second
+# object is NOT what it would have been without the first one's edit — (a) its levels differ from those of an object
+# constructed before the edit, (b) its observations differ from a control run of the same history without the edit.  The
+# property oracle for these histories is: "isolation" is empty in both stacks, and the two stacks agree.  Every edit is
+# undone on the edited object itself when the run ends (whatever shares that object is thereby restored as well), and in
+# the asyncio batch these histories run one after the other, never interleaved with other scenarios.
+# ------------------------------------------------------------------------------------------------
+LEVEL_FIELDS = ("pattern", "name", "previous_priv", "deescalate", "escalate", "escalate_auth", "escalate_prompt", "not_contains")
+ISOLATION_KEYS = ("ops", "errors", "sent", "device_log", "priv", "device_mode", "levels", "reads")
 
 
-async def _run_async(sc):
-    dev, drv = build(sc, "async")
-    obs, errs = [], []
-    for op in sc["ops"]:
+def levels_dump(drv):
+    lv = getattr(drv, "privilege_levels", None) or {}
+    out = []
+    for name in sorted(lv):
+        row = [name]
+        for f in LEVEL_FIELDS:
+            v = getattr(lv[name], f, None)
+            row.append(list(v) if isinstance(v, (list, tuple)) else v)
+        out.append(row)
+    return out
+
+
+def _apply_edit(drv, e, undo):
+    lvl = (getattr(drv, "privilege_levels", None) or {}).get(e[0])
+    if lvl is None:
+        return ["skip", "no level %s" % e[0]]
+    if e[1] == "not_contains":
+        lst = lvl.not_contains
+        if not isinstance(lst, list):
+            undo.append((lvl, "not_contains", lst))
+            lvl.not_contains = [e[2]]
+        else:
+            undo.append((lst, None, list(lst)))
+            lst.append(e[2])
+    else:
+        undo.append((lvl, e[1], getattr(lvl, e[1])))
+        setattr(lvl, e[1], e[2])
+    return ["ok", None]
+
+
+def _undo_edits(undo):
+    for obj, field, old in reversed(undo):
+        if field is None:
+            obj[:] = old
+        else:
+            setattr(obj, field, old)
+
+
+def _isolation(out, ref_levels, ctl):
+    iso = []
+    got = {r[0]: r for r in out["levels"] or []}
+    want = {r[0]: r for r in ref_levels}
+    for name in sorted(set(got) | set(want)):
+        if got.get(name) != want.get(name):
+            fields = [f for f, x, y in zip(("name",) + LEVEL_FIELDS, got.get(name) or [], want.get(name) or []) if x != y]
+            iso.append("level %s of the second object differs from an object constructed before the edit in %s" % (
+                name, ",".join(fields) or "presence"))
+    if ctl is not None:
+        for k in ISOLATION_KEYS:
+            if out.get(k) != ctl.get(k):
+                iso.append("%s of the second object differ(s) from the same history without the edit" % k)
+    return iso
+
+
+def _first_sc(sc):
+    f = dict(sc)
+    f.pop("first", None)
+    f["fault"] = None
+    return f
+
+
+def _run_ops(drv, ops, obs, errs):
+    """sync: run the operations, -> False when the history ended in Starved"""
+    for op in ops:
+        if not _has(drv, op):
+            obs.append(["skip", op[0]])
+            continue
+        fn, a, kw = _call_args(drv, op)
+        try:
+            obs.append(["ok", canon(fn(*a, **kw))])
+        except Starved:
+            obs.append(["exc", "Starved"])
+            return False
+        except Exception as e:  # noqa
+            obs.append(["exc", type(e).__name__])
+            errs.append([len(obs) - 1] + error_class(e))
+    return True
+
+
+async def _arun_ops(drv, ops, obs, errs):
+    for op in ops:
         if not _has(drv, op):
             obs.append(["skip", op[0]])
             continue
@@ -535,16 +685,117 @@ async def _run_async(sc):
             obs.append(["ok", canon(r)])
         except Starved:
             obs.append(["exc", "Starved"])
-            break
+            return False
         except Exception as e:  # noqa
             obs.append(["exc", type(e).__name__])
             errs.append([len(obs) - 1] + error_class(e))
-    return _finish(dev, drv, obs, errs)
+    return True
+
+
+def _first_obs(dev1, drv1, obs1):
+    return {"ops": obs1, "sent": b"".join(drv1.transport.writes).hex(),
+            "device_log": [[m, l.hex(), o.hex()] for (m, l, o) in dev1.log], "levels": levels_dump(drv1)}
+
+
+def _not_constructed(e):
+    """observation of a history whose (second) object could not even be constructed"""
+    return {"ops": [["exc-constructing", type(e).__name__]], "errors": [[-1] + error_class(e)], "transport_open": False, "writes": [],
+            "sent": "", "device_log": [], "hidden": [], "reads": "", "priv": None, "device_mode": None, "dialogue": [], "alive": False,
+            "timeout_ops": None}
+
+
+def _run_sync_one(sc, control=False):
+    first = sc.get("first")
+    undo, out = [], None
+    try:
+        if first:
+            ref = levels_dump(build(_first_sc(sc), "sync")[1])
+            dev1, drv1 = build(_first_sc(sc), "sync")
+            obs1 = []
+            alive = _run_ops(drv1, first.get("ops_before", []), obs1, [])
+            if not control:
+                for e in first.get("edits", []):
+                    obs1.append(_apply_edit(drv1, e, undo))
+            if alive:
+                _run_ops(drv1, first.get("ops_after", []), obs1, [])
+        try:
+            dev, drv = build(sc, "sync")
+        except Exception as e:  # noqa
+            if not first:
+                raise
+            out, lv = _not_constructed(e), None
+        else:
+            lv = levels_dump(drv) if first else None
+            obs, errs = [], []
+            _run_ops(drv, sc["ops"], obs, errs)
+            out = _finish(dev, drv, obs, errs)
+        if first:
+            out["levels"] = lv
+            out["first"] = _first_obs(dev1, drv1, obs1)
+    finally:
+        _undo_edits(undo)
+    if first and not control:
+        out["isolation"] = _isolation(out, ref, _run_sync_one(sc, control=True))
+    return out
+
+
+def run_sync(sc):
+    with scripted_timers():
+        return _run_sync_one(sc)
+
+
+async def _run_async(sc, control=False):
+    first = sc.get("first")
+    undo, out = [], None
+    try:
+        if first:
+            ref = levels_dump(build(_first_sc(sc), "async")[1])
+            dev1, drv1 = build(_first_sc(sc), "async")
+            obs1 = []
+            alive = await _arun_ops(drv1, first.get("ops_before", []), obs1, [])
+            if not control:
+                for e in first.get("edits", []):
+                    obs1.append(_apply_edit(drv1, e, undo))
+            if alive:
+                await _arun_ops(drv1, first.get("ops_after", []), obs1, [])
+        try:
+            dev, drv = build(sc, "async")
+        except Exception as e:  # noqa
+            if not first:
+                raise
+            out, lv = _not_constructed(e), None
+        else:
+            lv = levels_dump(drv) if first else None
+            obs, errs = [], []
+            await _arun_ops(drv, sc["ops"], obs, errs)
+            out = _finish(dev, drv, obs, errs)
+        if first:
+            out["levels"] = lv
+            out["first"] = _first_obs(dev1, drv1, obs1)
+    finally:
+        _undo_edits(undo)
+    if first and not control:
+        out["isolation"] = _isolation(out, ref, await _run_async(sc, control=True))
+    return out
 
 
 def run_async_batch(scs):
     async def go():
-        return await asyncio.gather(*(asyncio.ensure_future(_run_async(sc)) for sc in scs))
+        res = {}
+        loop = asyncio.get_running_loop()
+        for i, sc in enumerate(scs):          # two-object histories edit objects in place: one at a time, nothing interleaved
+            if sc.get("first"):
+                # each history starts at scripted time 0: every "blocks for ever" read costs HORIZON scripted seconds, and a
+                # clock beyond ~1e7 s no longer resolves the loop's 1 ns timer slack (a due timer would never fire)
+                if isinstance(loop, VirtualLoop) and not any(not h._cancelled for h in loop._scheduled):
+                    loop._vt = 0.0
+                res[i] = await _run_async(sc)
+        if isinstance(loop, VirtualLoop) and not any(not h._cancelled for h in loop._scheduled):
+            loop._vt = 0.0
+        rest = [i for i in range(len(scs)) if i not in res]
+        for i, r in zip(rest, await asyncio.gather(*(asyncio.ensure_future(_run_async(scs[i])) for i in rest))):
+            res[i] = r
+        return [res[i] for i in range(len(scs))]
     loop = VirtualLoop()
     try:
         return loop.run_until_complete(go())
@@ -558,6 +809,9 @@ def diff_obs(a, b):
     for k in sorted(a):
         if a[k] != b.get(k):
             out.append(k)
+    # two-object histories: either stack failing the isolation expectation is a failure by itself (even when both fail alike)
+    if (a.get("isolation") or b.get("isolation")) and "isolation" not in out:
+        out = sorted(out + ["isolation"])
     return out
 
 
@@ -709,7 +963,8 @@ def gen_interactive(rng, kind, dev, channel_level=False):
 # scenario families: what a scenario mostly consists of.  FN_FAMILY maps a paired function (the name behind the
 # class in the twin table) to the families whose scenarios reach it; c06.py searches those families first when the
 # twin-diff obligation of that function breaks.
-FAMILIES = ["interactive", "commands", "and_read", "prompt", "configs", "priv", "lifecycle", "lists", "timeouts", "errors"]
+FAMILIES = ["interactive", "commands", "and_read", "prompt", "configs", "priv", "lifecycle", "lists", "timeouts", "errors",
+            "ansi", "two_objects"]
 _LISTS = ["commands", "lists", "timeouts"]
 _CONFS = ["configs", "lists", "timeouts"]
 FN_FAMILY = {
@@ -719,11 +974,12 @@ FN_FAMILY = {
     "send_input_and_read": ["and_read", "timeouts"], "send_and_read": ["and_read", "timeouts"],
     "send_input": ["commands", "configs", "priv", "lists", "timeouts"], "_send_command": _LISTS, "send_command": ["commands", "timeouts"],
     "send_commands": _LISTS, "send_commands_from_file": ["lists", "timeouts"],
-    "get_prompt": ["prompt", "priv", "timeouts"], "read": FAMILIES, "_channel_lock": FAMILIES,
+    "get_prompt": ["prompt", "priv", "timeouts"], "read": ["ansi", "ansi"] + FAMILIES, "_channel_lock": FAMILIES,
     "send_config": _CONFS, "send_configs": _CONFS, "send_configs_from_file": ["lists", "timeouts"], "_abort_config": ["configs", "lists"],
     "_acquire_appropriate_privilege_level": ["priv", "configs", "interactive", "errors"], "_escalate": ["errors", "priv"],
     "_deescalate": ["errors", "priv"], "acquire_priv": ["errors", "priv"], "register_configuration_session": ["priv", "configs"],
-    "open": ["lifecycle", "errors"], "close": ["lifecycle", "errors"], "__init__": ["lifecycle"], "__enter__": ["lifecycle"], "__exit__": ["lifecycle"],
+    "open": ["lifecycle", "errors"], "close": ["lifecycle", "errors"], "__init__": ["lifecycle", "two_objects"],
+    "update_privilege_levels": ["two_objects", "priv"], "__enter__": ["lifecycle"], "__exit__": ["lifecycle"],
     "commandeer": ["lifecycle"],
     # the two variants (function / coroutine) of the decorators of scrapli/decorators.py, paired by gen_twins as
     # "decorators:timeout_modifier" / "decorators:timeout_wrapper"
@@ -1150,10 +1406,213 @@ def gen_error_scenario(rng, kind=None, mode=None):
             "fault": None, "family": "errors", "err": meta, "ops": ops}
 
 
+# ------------------------------------------------------------------------------------------------
+# family "and_read": send_and_read / channel.send_input_and_read with expected_outputs against STREAMING devices.  The
+# device's answer goes on after the place where an expected output occurs (and, for the endless lines, never ends in a
+# prompt: ping / monitor / tail -f style, simulated as a dialogue step that waits for the next line), so WHERE a stack stops
+# reading is visible in what it returns, in what is left unread for the next operation, and in ok / "blocks for ever".
+# expected_outputs entries are drawn from three classes per stream: plain text that occurs in it, text with regex
+# metacharacters that occurs in it literally (and means something else, or nothing, as a pattern), and real patterns that
+# occur in it only as a pattern; plus entries that occur nowhere and entries that are not a valid pattern at all.
+# ------------------------------------------------------------------------------------------------
+STREAMS = [
+    {"text": "PING 10.0.0.1 (10.0.0.1): 56 data bytes\n64 bytes from 10.0.0.1: seq=0 ttl=64 time=1.2 ms\n"
+             "64 bytes from 10.0.0.1: seq=1 ttl=64 time=1.1 ms\n64 bytes from 10.0.0.1: seq=2 ttl=64 time=1.3 ms\n"
+             "--- 10.0.0.1 ping statistics ---\n3 packets transmitted, 3 received (100%)\nrtt min/avg/max = 1.1/1.2/1.3 ms",
+     "plain": ["seq=1", "bytes from", "statistics", "TTL=64"],
+     "meta": ["(100%)", "(10.0.0.1)", "1.1/1.2/1.3", "---", "10.0.0.1:"],
+     "pattern": [r"seq=[12]", r"\d+ packets transmitted", r"time=\d\.\d ms$", r"^rtt .*ms", r"received \(\d+%\)", r"seq=\d ttl"]},
+    {"text": "Building configuration...\n[OK]\nCurrent configuration : 1200 bytes\n!\nversion 17.3\nhostname r9\n!\n"
+             "interface Loopback0 [up/up]\n ip address 10.0.0.1 255.255.255.255\n!\nend",
+     "plain": ["Current configuration", "hostname", "loopback0", "end"],
+     "meta": ["[OK]", "[up/up]", "configuration...", "17.3", "!"],
+     "pattern": [r"version \d+\.\d+", r"^hostname \S+$", r"\d+ bytes", r"Loopback\d", r"ip address (\d+\.){3}\d+", r"^end$"]},
+    {"text": "Clear all counters? [confirm] assumed\ncounters cleared (y/n) a|b c++ $5 ^top\nline one\nline two\n"
+             "total: 42 items\nuptime is 1 week\nmore text follows here\nand here",
+     "plain": ["counters", "line two", "items", "UPTIME"],
+     "meta": ["[confirm]", "(y/n)", "a|b", "c++", "$5", "^top", "counters?"],
+     "pattern": [r"line (one|two)", r"up(time)? is \d", r"total: \d+", r"^more \w+", r"\bitems$", r"[0-9]{2} items"]},
+]
+NOWHERE = ["zz", "no such text", "(yes/no)", "[never]", r"\d{9}"]
+BAD_PATTERNS = ["(yes/no", "[confirm", "*", "a)b"]
+ENDLESS_LINES = ["ping 10.0.0.1 repeat 100000", "monitor interface", "tail -f /var/log/messages", "terminal monitor"]
+
+
+def gen_expected(rng, stream):
+    """-> (expected_outputs list, classes of its entries)"""
+    out, classes = [], []
+    for _ in range(rng.choice([1, 1, 1, 2, 2, 3])):
+        r = rng.random()
+        if r < 0.22:
+            c = "plain"
+        elif r < 0.52:
+            c = "meta"
+        elif r < 0.82:
+            c = "pattern"
+        elif r < 0.93:
+            c = "nowhere"
+        else:
+            c = "invalid"
+        out.append(rng.choice(NOWHERE if c == "nowhere" else BAD_PATTERNS if c == "invalid" else stream[c]))
+        classes.append(c)
+    return out, classes
+
+
+def gen_and_read_scenario(rng, kind=None):
+    kind = kind or rng.choice(PLATFORMS)
+    outputs, which = {}, {}
+    for c in rng.sample(SHOW, rng.randint(1, 3)):
+        which[c] = rng.choice(STREAMS)
+        outputs[c] = which[c]["text"]
+    dev = {"host": rng.choice(["router1", "r1", "core-sw.lab", "R_2"]), "outputs": outputs, "nl": rng.choice(["\r\n", "\r\n", "\n"])}
+    kw = {}
+    if kind in ENABLE:
+        dev["login_mode"] = rng.choice(["exec", "privilege_exec", "privilege_exec"])
+    if rng.random() < 0.5:        # lines whose answer never ends in a prompt
+        for line in rng.sample(ENDLESS_LINES, rng.randint(1, 2)):
+            which[line] = rng.choice(STREAMS)
+            dev.setdefault("dialogs", {})[line] = {"steps": [{"q": which[line]["text"] + "\n"}], "out": rng.choice(["", "stopped"])}
+    ops, meta = [["open"]], []
+    for _ in range(rng.choice([1, 1, 2, 3])):
+        line = rng.choice(sorted(which))
+        okw = {"read_duration": 120}
+        exp, classes = gen_expected(rng, which[line])
+        if rng.random() < 0.92:
+            okw["expected_outputs"] = exp
+            meta.append(classes)
+        else:
+            meta.append([])
+        if rng.random() < 0.3:
+            okw["strip_prompt"] = False
+        ops.append([rng.choice(["send_and_read", "send_and_read", "channel_send_input_and_read"]), line, okw])
+        r = rng.random()
+        if r < 0.35:
+            ops.append(["get_prompt"])
+        elif r < 0.6:
+            ops.append(["send_command", rng.choice(sorted(outputs)), {}])
+    if rng.random() < 0.3:
+        ops.append(["close"])
+    return {"kind": kind, "device": dev, "driver_kwargs": kw, "policy": gen_policy(rng) if rng.random() < 0.85 else ["whole"],
+            "fault": None, "family": "and_read", "expected_classes": meta, "ops": ops}
+
+
+# ------------------------------------------------------------------------------------------------
+# family "ansi": escape sequences in what the device prints (inside command output and at arbitrary places of the stream:
+# in front of / inside prompts and echoes) x the chunking policy "esccut" (see EscChunker): every cut position inside a
+# sequence, the chunk behind the cut with and without a further ESC.
+# ------------------------------------------------------------------------------------------------
+ESC_SEQS = ["\x1b[0m", "\x1b[0m", "\x1b[?25h", "\x1b[?25h", "\x1b[2;37;41m", "\x1b[K", "\x1b]0;router1 title\x07", "\x1b]2;x\x07",
+            "\x1b[1;32m", "\x1b[?2004l", "\x1b7", "\x1b[6n"]
+ESC_AFTER = ["rest", "rest", "plain", "plain", "all"]
+
+
+def _sprinkle(rng, text):
+    for _ in range(rng.choice([1, 1, 2, 3])):
+        at = rng.choice([0, len(text), rng.randint(0, len(text))])
+        seq = rng.choice(ESC_SEQS)
+        if rng.random() < 0.2:
+            seq += rng.choice(ESC_SEQS)          # two sequences back to back
+        text = text[:at] + seq + text[at:]
+    return text
+
+
+def gen_ansi_scenario(rng, kind=None):
+    kind = kind or rng.choice(PLATFORMS)
+    outputs = {}
+    for c in rng.sample(SHOW, rng.randint(1, 3)):
+        o = rng.choice(OUTPUTS[1:7])
+        outputs[c] = _sprinkle(rng, o) if rng.random() < 0.8 else o
+    dev = {"host": rng.choice(["router1", "r1", "core-sw.lab"]), "outputs": outputs, "nl": rng.choice(["\r\n", "\r\n", "\n"])}
+    kw = {}
+    if kind in ENABLE:
+        dev["login_mode"] = rng.choice(["exec", "privilege_exec", "privilege_exec"])
+        if rng.random() < 0.3:
+            dev["secret"] = "s3cr3t"
+            kw["auth_secondary"] = "s3cr3t"
+    if rng.random() < 0.6:        # sequences anywhere in the stream: prompts, echoes, line ends
+        dev["insertions"] = {str(rng.choice([0, 1, 7, 8, 9, rng.randint(0, 60), rng.randint(0, 400)])): rng.choice(ESC_SEQS)
+                             for _ in range(rng.choice([1, 1, 2, 3]))}
+    if rng.random() < 0.75:
+        policy = ["esccut", rng.choice([1, 1, 2, 2, 3, 3, 4, 5, 6, 9, -1, -1]), rng.choice(ESC_AFTER)]
+    else:
+        policy = gen_policy(rng)
+    ops = [["open"]]
+    cmds = sorted(outputs)
+    for _ in range(rng.choice([1, 2, 3, 4])):
+        r = rng.random()
+        if r < 0.45:
+            ops.append(["send_command", rng.choice(cmds), {"strip_prompt": False} if rng.random() < 0.2 else {}])
+        elif r < 0.6:
+            ops.append(["send_commands", [rng.choice(cmds) for _ in range(rng.choice([2, 3]))], {}])
+        elif r < 0.7:
+            ops.append(["get_prompt"])
+        elif r < 0.8:
+            ops.append(["channel_send_input", rng.choice(cmds), {}])
+        elif r < 0.88:
+            ops.append(["send_and_read", rng.choice(cmds), {"read_duration": 120, "expected_outputs": [rng.choice(["one", "zz", "Version"])]}])
+        else:
+            ops.append(gen_op(rng, kind, outputs))
+    return {"kind": kind, "device": dev, "driver_kwargs": kw, "policy": policy, "fault": None, "family": "ansi", "ops": ops}
+
+
+# ------------------------------------------------------------------------------------------------
+# family "two_objects" (see _run_sync_one): per platform driver, edit a DEFAULT privilege level in place on a first object,
+# then construct and use a second one.
+# ------------------------------------------------------------------------------------------------
+TWO_KINDS = ["cisco_iosxe", "cisco_iosxr", "cisco_nxos", "arista_eos", "juniper_junos"]
+EDIT_VALUES = {
+    "pattern": [r"^never-matches-\d+#$", r"^[\w.\-@/:]{1,63}[#>]\s?$", r"^.*$", r"^edited[#>]$"],
+    "escalate": ["configure terminal force", "conf t", "", "enable 15"],
+    "deescalate": ["quit", "exit all", "", "disable"],
+    "not_contains": ["#", "(", "config", ">", "r", "tcl"],
+    "escalate_prompt": [r"^[Pp]assphrase:\s?$", ""],
+    "escalate_auth": [True, False],
+    "previous_priv": ["", "privilege_exec", "exec"],
+}
+EDIT_FIELDS = ["pattern", "pattern", "pattern", "escalate", "escalate", "not_contains", "not_contains", "deescalate", "escalate_prompt",
+               "escalate_auth", "previous_priv"]
+
+
+def gen_two_objects_scenario(rng, kind=None):
+    kind = kind if kind in TWO_KINDS else rng.choice(TWO_KINDS)
+    outputs = {c: rng.choice(OUTPUTS[1:6]) for c in rng.sample(SHOW, rng.randint(1, 2))}
+    cmds = sorted(outputs)
+    dev = {"host": rng.choice(["router1", "r1", "core-sw.lab"]), "outputs": outputs, "nl": rng.choice(["\r\n", "\n"])}
+    kw = {}
+    if kind in ENABLE:
+        dev["login_mode"] = rng.choice(["exec", "privilege_exec", "privilege_exec"])
+    levels = PRIVS[kind]
+    use = lambda: rng.choice([["get_prompt"], ["send_command", rng.choice(cmds), {}], ["acquire_priv", rng.choice(levels)],      # noqa: E731
+                              ["send_configs", [rng.choice(CONF)], {}], ["acquire_priv", "configuration"]])
+    edits = []
+    for _ in range(rng.choice([1, 1, 2])):
+        f = rng.choice(EDIT_FIELDS)
+        edits.append([rng.choice(levels), f, rng.choice(EDIT_VALUES[f])])
+    first = {"ops_before": [], "edits": edits, "ops_after": []}
+    r = rng.random()
+    if r < 0.4:
+        first["ops_before"] = [["open"]] + ([use()] if rng.random() < 0.5 else [])
+    if rng.random() < 0.5:
+        first["ops_after"].append(["update_privilege_levels"])
+    if rng.random() < 0.4:
+        first["ops_after"] += ([] if first["ops_before"] else [["open"]]) + [use()]
+    ops = [["open"]] + [use() for _ in range(rng.choice([1, 2, 3]))]
+    if rng.random() < 0.3:
+        ops.append(["close"])
+    return {"kind": kind, "device": dev, "driver_kwargs": kw, "policy": gen_policy(rng) if rng.random() < 0.4 else ["whole"],
+            "fault": None, "family": "two_objects", "first": first, "ops": ops}
+
+
 def gen_scenario(rng, kind=None, faulty=None, family=None):
     """family: one of FAMILIES -> most operations of the scenario come from that family"""
     if family == "errors":
         return gen_error_scenario(rng, kind)
+    if family == "and_read" and rng.random() < 0.8:
+        return gen_and_read_scenario(rng, kind)
+    if family == "ansi":
+        return gen_ansi_scenario(rng, kind)
+    if family == "two_objects":
+        return gen_two_objects_scenario(rng, kind)
     kind = kind or rng.choice(PLATFORMS)
     plat = "cisco_iosxe" if kind == "network" else kind
     outputs = {}
@@ -1322,4 +1781,38 @@ def corpus():
         out.append({"kind": kind, "device": {"outputs": dict(outs), "mute": [["*", "terminal length 0"], ["*", "set cli screen-length 0"]]},
                     "driver_kwargs": {"timeout_ops": 2.1, "on_open": "cmd" if kind == "generic" else "cmd_then_raise"},
                     "policy": ["whole"], "fault": None, "family": "errors", "ops": [["open"], ["get_prompt"], ["close"]]})
+    # send_and_read / channel.send_input_and_read against a streaming answer: expected outputs that are plain text, text with regex
+    # metacharacters, real patterns, nowhere in the stream, not a valid pattern — chunked, so that where the read stops shows
+    st = STREAMS[2]
+    for kind, pol in (("generic", ["bytes", 3]), ("cisco_iosxe", ["bytes", 5]), ("juniper_junos", ["random", 11, 7])):
+        for exp in (["line two"], ["[confirm]"], ["(y/n)"], ["c++"], ["$5"], ["a|b"], [r"line (one|two)"], [r"total: \d+"], [r"up(time)? is \d"],
+                    ["zz"], ["(yes/no"], ["zz", "[never]", r"^more \w+"]):
+            for name in ("send_and_read", "channel_send_input_and_read"):
+                out.append({"kind": kind, "device": {"outputs": {"show counters": st["text"]},
+                                                     "dialogs": {"monitor interface": {"steps": [{"q": st["text"] + "\n"}], "out": ""}}},
+                            "driver_kwargs": {}, "policy": pol, "fault": None, "family": "and_read",
+                            "ops": [["open"], [name, "show counters", {"expected_outputs": exp, "read_duration": 120}], ["get_prompt"],
+                                    [name, "monitor interface", {"expected_outputs": exp, "read_duration": 120}], ["get_prompt"]]})
+    # every cut position inside ESC[0m, ESC[?25h and an OSC title sequence, the chunk behind the cut carrying only the rest of
+    # the sequence / the rest and plain text / everything (further sequences included)
+    n = 0
+    for seq in ("\x1b[0m", "\x1b[?25h", "\x1b]0;t1\x07"):
+        for k in range(1, len(seq)):
+            for after in ("rest", "plain", "all"):
+                kind = ("generic", "cisco_iosxe", "cisco_iosxr", "juniper_junos")[n % 4]
+                n += 1
+                out.append({"kind": kind, "device": {"outputs": {"show version": "v1 " + seq + "v2\nv3" + seq, "show clock": seq + "12:00"},
+                                                     "insertions": {"0": seq} if n % 3 == 0 else {}},
+                            "driver_kwargs": {}, "policy": ["esccut", k, after], "fault": None, "family": "ansi",
+                            "ops": [["open"], ["send_command", "show version", {}], ["send_command", "show clock", {"strip_prompt": False}],
+                                    ["get_prompt"]]})
+    # two objects of each platform driver: a default level of the first edited in place, then the second constructed and used
+    for kind in TWO_KINDS:
+        top = "configuration"
+        for edit in ([top, "pattern", r"^never-matches-\d+#$"], [top, "escalate", "configure terminal force"], [top, "not_contains", "#"],
+                     [PRIVS[kind][0], "pattern", r"^edited[#>]$"]):
+            for upd in ([], [["update_privilege_levels"]]):
+                out.append({"kind": kind, "device": {"outputs": {"show clock": "12:00"}}, "driver_kwargs": {}, "policy": ["whole"],
+                            "fault": None, "family": "two_objects", "first": {"ops_before": [], "edits": [edit], "ops_after": upd},
+                            "ops": [["open"], ["get_prompt"], ["send_configs", ["no shutdown"], {}], ["send_command", "show clock", {}]]})
     return out
